@@ -19,7 +19,7 @@ RULE = (
     "every rendered field is judged (inside <=> value beyond the midpoint) except cells within 1e-9 of the interface or, for direction-"
     "dependent shapes, within 1e-9 of half a period from the centre (ambiguous direction); roll and sum clauses on all periodic "
     "shifts of a menu and all permutations of <= 3 droplets; non-trivial = droplet covers at least one cell and leaves one uncovered"
-    " plus extreme widths (1e-3 and 1e3 cells), amplitudes on the bounds, centres one and three periods outside; histories (fresh fork): ordered pairs of grids differing in one attribute and four renderings on one shared grid object"
+    " plus extreme widths (1e-3 and 1e3 cells), amplitudes on the bounds, centres one and three periods outside; histories (fresh fork): ordered pairs of grids differing in one attribute and four renderings on one shared grid object; axisymmetric perturbed droplets on 3-d Cartesian grids (axis through cell centres / corners); every ordered pair of amplitude counts rendered in one fresh process"
 )
 ASSUMPTIONS = [
     "parameters restricted to the declared lattices; perturbed shapes on polar/spherical grids are only checked for finiteness/range "
@@ -79,6 +79,13 @@ def blocks(tier, seed):
             if tier != "thorough" and gi == 1 and mask not in ((False, False, False), (True, True, True), (True, False, True)):
                 continue
             out.append({"kind": "cart-p3d", "gi": gi, "mask": list(mask), "phase": ph, "nmodes": 8 if tier != "thorough" else 15})
+    # axisymmetric perturbed droplets on 3-d Cartesian grids: symmetry axis through cell centres / through cell corners
+    for gi in range(2):
+        for mask in ((False, False, False), (True, True, True), (False, False, True), (True, True, False)):
+            out.append({"kind": "cart-axisym", "gi": gi, "mask": list(mask), "phase": ph})
+    # histories: droplets with different numbers of amplitudes rendered one after the other in a fresh process (every ordered pair)
+    for cls, nmax in (("PerturbedDroplet2D", 5), ("PerturbedDroplet3D", 9 if tier != "thorough" else 16), ("PerturbedDroplet3DAxisSym", 4)):
+        out.append({"kind": "modeseq", "cls": cls, "nmax": nmax, "phase": ph})
     for kind in ("polar", "sph"):
         out.append({"kind": "sym", "grid": {"kind": kind, "n": 9, "R": 4.5}, "phase": ph})
     for pz in (False, True):
@@ -165,6 +172,40 @@ def cases(block):
                 for w in (0.0, 0.7 * mdx):
                     yield {"cls": cls, "grid": g, "centre": c, "R": R, "width": w, "levels": LEVELS[1] if w else LEVELS[0], "amps": amps, "label": label}
         yield {"cls": cls, "grid": g, "centre": centre_classes(g, R, ph)[0][1], "R": R, "width": None, "levels": LEVELS[3], "amps": amp_patterns(block["nmodes"], None)[-1], "label": "generic"}
+    elif k == "cart-axisym":
+        shape, dx, org = [((5, 5, 6), [1.0, 1.0, 1.0], [-2.5, -2.5, -1.0]), ((4, 6, 7), [1.5, 1.0, 0.5], [-3.0, -3.0, 2.25])][block["gi"]]
+        g = cart(shape, block["mask"], dx, org)
+        mdx = max(dx)
+        R = 1.5 * mdx if block["gi"] else 1.9
+        nz = shape[2]
+        zs = [("generic", org[2] + (nz // 2 + 0.31 + ph) * dx[2]), ("cell-centre", org[2] + (nz // 2 + 0.5) * dx[2]), ("cell-corner", org[2] + (nz // 2) * dx[2])]
+        if block["mask"][2]:
+            zs.append(("one-period-outside", org[2] + (nz // 2 + 0.31 + ph + nz) * dx[2]))
+        for label, z in zs:
+            for amps in amp_patterns(4, None):
+                for w in (0.0, 0.7 * mdx):
+                    yield {"cls": "PerturbedDroplet3DAxisSym", "grid": g, "centre": [0.0, 0.0, z], "R": R, "width": w, "levels": LEVELS[1] if w else LEVELS[0], "amps": amps, "label": label}
+    elif k == "modeseq":
+        cls = block["cls"]
+        if cls == "PerturbedDroplet2D":
+            g = cart((7, 6), (True, False), [1.0, 1.0], [0.0, 0.0])
+            c, R = [3.31 + ph, 2.77], 1.9
+        elif cls == "PerturbedDroplet3D":
+            g = cart((5, 6, 5), (False, True, False), [1.0, 1.0, 1.0], [0.0, 0.0, 0.0])
+            c, R = [2.31 + ph, 2.77, 2.4], 1.6
+        else:
+            g = {"kind": "cyl", "shape": [5, 9], "R": 4.0, "z": [-3.0, 6.0], "periodic_z": False}
+            c, R = [0.0, 0.0, 1.31 + ph], 2.2
+
+        def amps_n(n):
+            a = [0.03 * (1 + i % 3) * (-1) ** i for i in range(n)]
+            a[-1] = 0.2
+            return a
+
+        for n1 in range(1, block["nmax"] + 1):
+            for n2 in range(1, block["nmax"] + 1):
+                if n1 != n2:
+                    yield {"sequence": [{"cls": cls, "grid": g, "centre": c, "R": R, "width": 0.0, "levels": LEVELS[0], "amps": amps_n(n), "label": "generic"} for n in (n1, n2)], "modeseq": True}
     elif k == "sym":
         g = block["grid"]
         dim = 2 if g["kind"] == "polar" else 3
@@ -259,6 +300,9 @@ def reference(g, spec, centre=None):
                     amb |= np.abs(np.abs(diff[..., a]) - L[a] / 2) <= 1e-9 * L[a]
             if cls == "PerturbedDroplet2D":
                 rho = harm.rho2d(R, spec["amps"], np.arctan2(diff[..., 1], diff[..., 0]))
+            elif cls == "PerturbedDroplet3DAxisSym":
+                theta = np.arctan2(np.hypot(diff[..., 0], diff[..., 1]), diff[..., 2])  # polar angle in [0, pi], pi exactly below the centre
+                rho = harm.rho_axisym(R, spec["amps"], theta)
             else:
                 with np.errstate(invalid="ignore", divide="ignore"):
                     theta = np.arccos(np.clip(np.where(d > 0, diff[..., 2] / np.where(d > 0, d, 1.0), 1.0), -1, 1))
@@ -298,7 +342,7 @@ def run_case(case, ctx):
     if "sequence" in case:
         from mcx import core
 
-        ctx.count("grid-sequences")
+        ctx.count("mode-count-sequences" if case.get("modeseq") else "grid-sequences")
         return core.run_sequence_in_fork(run_case, case["sequence"], ctx, tag={"history": True})
     k = case.get("kind")
     g = case["grid"]
@@ -324,6 +368,8 @@ def run_case(case, ctx):
         zlo, zhi = g["z"]
         ext = case["R"] * (1 + sum(abs(a) for a in case.get("amps", [])) * 0.7) + 2 * (zhi - zlo) / g["shape"][1] * (1 if case.get("width") is None else 1 + (case["width"] or 0))
         tags["wraps_z"] = bool(case["centre"][2] - ext < zlo or case["centre"][2] + ext > zhi)
+    if cls == "PerturbedDroplet3DAxisSym" and g["kind"] == "cart":
+        ctx.count("axisym-on-cartesian")
     drop = make_drop(spec)
     try:
         f = drop.get_phase_field(grid, vmin=vmin, vmax=vmax)
@@ -345,6 +391,9 @@ def run_case(case, ctx):
         probe = np.linspace(0.1, 3.0, 5)
         if cls == "PerturbedDroplet2D":
             ok = np.allclose(drop.interface_distance(probe), harm.rho2d(case["R"], case["amps"], probe), rtol=1e-12, atol=0)
+        elif cls == "PerturbedDroplet3DAxisSym":
+            probe = np.array([0.0, 0.4, 1.3, 2.9, math.pi])
+            ok = np.allclose(drop.interface_distance(probe), harm.rho_axisym(case["R"], case["amps"], probe), rtol=1e-12, atol=0)
         else:
             ok = np.allclose(drop.interface_distance(probe, probe[::-1] * 2), harm.rho3d(case["R"], case["amps"], probe, probe[::-1] * 2), rtol=1e-12, atol=0)
         ctx.check("C03.shape-function", bool(ok), None, tags)
@@ -407,6 +456,8 @@ def run_case(case, ctx):
     rtol_roll = 1e-12 if not w_eff else max(1e-12, 16 * np.finfo(float).eps * float(np.max(d) + 3 * sc * max(g.get("shape", [1]))) / w_eff)
     if g["kind"] == "cart" and any(g["periodic"]):
         per = [a for a in range(len(g["shape"])) if g["periodic"][a]]
+        if cls == "PerturbedDroplet3DAxisSym":
+            per = [a for a in per if a == 2]  # the droplet must stay on the z axis
         for shift in ([1] * len(per), [g["shape"][a] - 2 for a in per], [-(g["shape"][a] + 1) for a in per]):
             c2 = list(case["centre"])
             sh = [0] * len(g["shape"])
@@ -502,4 +553,4 @@ def run_sum(case, ctx, grid):
 
 def expected_positive(tier):
     return ["C03.finite", "C03.range", "C03.inside", "C03.indicator", "C03.monotone", "C03.profile", "C03.roll", "C03.sum", "C03.dim", "C03.shape-function",
-            "covers-some-but-not-all-cells", "sum-needs-clipping", "grid-sequences"]
+            "covers-some-but-not-all-cells", "sum-needs-clipping", "grid-sequences", "mode-count-sequences", "axisym-on-cartesian"]
